@@ -556,3 +556,117 @@ def chan_trace(ctx, lines, prefixes, label, control=True):
                 raise Inconclusive("ChanTrace accepted a trace with a flipped status (%s): the trace spec does not bind" % label)
             ctx.extra["chan_trace"][label]["control"] = {"flipped_status_at": spans[i][0] + j + 1, "tlc": what, "at": info if what == "rejected" else info[1]}
     return n_ok, accepted_lines
+
+
+# ---------------------------------------------------------------------------------------------------------
+# gated replay: ChanGate.tla schedules (operations racing with the asynchronous cleanup handler) on the real engine
+# ---------------------------------------------------------------------------------------------------------
+GATE_STATUSES = {"init": ["Requested", "Queued", "AwaitingAcceptance", "Ongoing", "TransferFinished", "ResponderCompleted", "ResponderFinalizing", "ResponderFinalizingTransferFinished"],
+                 "resp": ["Requested", "Queued", "AwaitingAcceptance", "Ongoing", "Finalizing"]}
+GATE_OPS = {"init": ["Accept", "TransferInitiated", "FinishTransfer", "ResponderCompletes", "ResponderBeginsFinalization", "Cancel", "Error", "PauseInitiator", "ResumeInitiator",
+                     "PauseResponder", "ResumeResponder", "Disconnected", "RequestCancelled", "SendDataError", "DataReceived", "DataQueued", "DataSent", "NewVoucher", "NewVoucherResult",
+                     "Restart", "Open", "CompleteCleanupOnRestart", "ChannelOpened"],
+            "resp": ["Accept", "TransferInitiated", "Complete", "BeginFinalizing", "Cancel", "Error", "PauseInitiator", "ResumeInitiator", "PauseResponder", "ResumeResponder",
+                     "Disconnected", "RequestCancelled", "ReceiveDataError", "DataReceived", "DataQueued", "DataSent", "NewVoucher", "NewVoucherResult", "SetDataLimit",
+                     "SetRequiresFinalization", "Restart", "Open", "CompleteCleanupOnRestart", "ChannelOpened"]}
+GATE_CFG = """SPECIFICATION GSpec
+CONSTANTS
+ Chans = {"c1"}
+ InitChans = %s
+ EnvOps = %s
+ MaxOps = 1000
+ MaxQ = 40
+ DataArgs = {"b1","b2","d2"}
+ Crashes = 0
+ EnvGuard = "any"
+ GRole = "%s"
+ GLen = %d
+ PreStatus = "%s"
+"""
+
+
+def gated_family(ctx, prefixes, quick=(4, 14, 9), thorough=(None, 60, 12)):
+    """TLC -simulate over ChanGate.tla -> schedules in which operations are issued while the cleanup handler is held at a gate;
+    executed on the real engine (chanx/TestGated), judged by GateJudge; the hook lines of the same runs validated by ChanTrace."""
+    import glob
+    n_combos, n_per, glen = quick if ctx.quick() else thorough
+    combos = [(role, st) for role in ALL_ROLES for st in GATE_STATUSES["init" if role.startswith("init") else "resp"]]
+    if n_combos:
+        ctx.rng.shuffle(combos)
+        fixed = [("initPull", "ResponderCompleted"), ("respPush", "Finalizing")]
+        combos = fixed + [c for c in combos if c not in fixed][:n_combos]
+    cases = []
+    for k, (role, st) in enumerate(combos):
+        kind = "init" if role.startswith("init") else "resp"
+        cfg = write_cfg(ctx, "changate-%s-%s.cfg" % (role, st), GATE_CFG % ('{"c1"}' if kind == "init" else "{}", tla_set(GATE_OPS[kind]), role, glen, st))
+        res = ctx.tlc("ChanGate", cfg, workers=1, simulate="num=%d" % n_per, depth=glen * 8 + 40, seed=ctx.seed * 104729 + k, timeout=300)
+        if res.timeout or "Error:" in res.out:
+            raise Inconclusive("ChanGate simulation failed:\n" + res.out[-2000:])
+        got = parse_cases(res.out)
+        seen = set()
+        for c in got:
+            sig = json.dumps(c["steps"], sort_keys=True)
+            if sig in seen:
+                continue
+            seen.add(sig)
+            c["case"] = "gate-%s-%s-%d" % (role, st, len(cases))
+            cases.append(c)
+        ctx.states += sum(len(c["steps"]) for c in got)
+        ctx.transitions += sum(len(c["steps"]) for c in got)
+    racing = [c for c in cases if any(s["k"] == "op" and s["at"] != "quiet" for s in c["steps"])]
+    if len(racing) < max(5, len(cases) // 10):
+        raise Inconclusive("ChanGate produced only %d schedules with an operation racing the handler (of %d)" % (len(racing), len(cases)))
+    cp = ctx.path("gatecases.ndjson")
+    vlib.write_ndjson(cp, cases)
+    b = ctx.go_bin("chanx")
+    out = ctx.path("gateobs.ndjson")
+    tdir = ctx.path("gate-traces")
+    os.makedirs(tdir, exist_ok=True)
+    ctx.must_run_go(b, "TestGated", env={"VERIF_CASES": cp, "VERIF_OUT": out, "VERIF_TRACE": tdir}, timeout=1500)
+    obs = {o["case"]: o for o in vlib.read_ndjson(out)}
+    if len(obs) != len(cases):
+        raise Inconclusive("TestGated wrote %d observations for %d schedules" % (len(obs), len(cases)))
+    merged = ctx.path("gatemerged.ndjson")
+    vlib.write_ndjson(merged, [{"case": c["case"], "exp": c, "obs": obs[c["case"]]} for c in cases])
+    n, verdicts = judge(ctx, merged, module="GateJudge")
+    byc = {c["case"]: c for c in cases}
+    harness_errs = 0
+    for v in verdicts:
+        c, o = byc[v["case"]], obs[v["case"]]
+        sched = [(s["k"], s["op"] or s["gate"], s["at"]) for s in c["steps"]]
+        if v["rule"] == "harness":
+            harness_errs += 1
+            continue
+        if v["rule"] == "conf":
+            ctx.drift.append({"case": v["case"], "note": "gated replay deviates from ChanGate.tla", "err": o["err"], "expFinal": c["final"]["status"], "gotFinal": o["final"]["status"],
+                              "expCleanups": c["cleanups"], "gotCleanups": o["cleanups"], "schedule": sched})
+            continue
+        if not any(v["rule"].startswith(p) for p in prefixes):
+            continue
+        racing_ops = sorted(set(s["op"] for s in c["steps"] if s["k"] == "op" and s["at"] != "quiet"))
+        ending = next((a["status"] for a in o["anns"] if a["status"] in ("Cancelling", "Failing", "Completing")), "")
+        ctx.violation({"rule": v["rule"], "src": "gated", "ending": ending, "racing": racing_ops[:3]},
+                      "%s violated in a gated replay (operations issued while the cleanup handler is held): case %s, final %s, cleanups %d, unprotects %d; schedule %s" % (
+                          v["rule"], v["case"], o["final"]["status"], o["cleanups"], o["unprotects"], sched),
+                      detail={"schedule": c["steps"], "obs": o, "expected": {k: c[k] for k in ("final", "endings", "cleanups", "unprotects", "applied")}})
+    if harness_errs > max(2, len(cases) // 20):
+        raise Inconclusive("gated replay: %d harness failures" % harness_errs)
+    for c in cases:
+        o = obs[c["case"]]
+        ctx.traces += 1
+        ctx.evaluations += len(c["steps"])
+        for s in c["steps"]:
+            if s["k"] == "op" and s["at"] != "quiet":
+                ctx.distinct.add(("gated", c["role"], s["op"], s["at"], o["final"]["status"]))
+    ctx.extra["gated"] = {"schedules": len(cases), "with_racing_ops": len(racing), "ops_at_gates": sum(1 for c in cases for s in c["steps"] if s["k"] == "op" and s["at"] != "quiet"),
+                          "followed_exactly": sum(1 for c in cases if obs[c["case"]]["err"] == "")}
+    for c in racing[:1]:
+        ctx.sample({"kind": "gated replay", "case": c["case"], "schedule": [(s["k"], s["op"] or s["gate"], s["at"]) for s in c["steps"]], "final": obs[c["case"]]["final"]["status"],
+                    "cleanups": obs[c["case"]]["cleanups"]})
+    lines = []
+    for f in sorted(glob.glob(os.path.join(tdir, "trace-*.ndjson"))):
+        lines += vlib.read_ndjson(f)
+    if not lines:
+        raise Inconclusive("the verif hook recorded nothing during the gated replays")
+    chan_trace(ctx, lines, prefixes, "gated")
+    return len(cases)
